@@ -1,6 +1,6 @@
 """C18 - readers skip noise rows; timestamp compaction is an order-preserving bijection."""
 import gen
-from props.base import PropBase
+from props.base import PropBase, bigio_case, with_bigio
 from props.graphcommon import has_probes, Truth
 
 
@@ -57,6 +57,7 @@ def gen_file(rnd, kind, delim, malformed=False):
     return lines, rows
 
 
+@with_bigio
 class C18(PropBase):
     id = 'C18'
     obs = {'rtext', 'compact', 'has', 'stream', 'nodes'}
@@ -71,9 +72,14 @@ class C18(PropBase):
         return ['compact_timeslot on ALL subsets of {0..7} shifted by -3 and scaled by 5 (256 sets)']
 
     def exhaustive_cases(self, tier):
+        # keys=True on files beyond 1 MiB (implementation side only): the pre-scan that collects the timestamps must see the whole file
+        yield bigio_case(('snap', False, 130000, True, 'plain'))
         for m in range(256):
             s = [(i - 3) * 5 for i in range(8) if m >> i & 1]
             yield dict(kind='compact', values=s[::-1] if m % 2 else s)
+        yield bigio_case(('int', True, 110000, True, 'plain'))
+        if tier == 'thorough':
+            yield bigio_case(('snap', True, 500000, True, 'plain'), ('int', False, 400000, True, 'plain'))
 
     def n_random(self, tier):
         return 2500 if tier == 'quick' else 200000
